@@ -11,6 +11,10 @@ import BfeVerif.C03.Model
                `S<seconds>` (`bal.SetSlowStart`)  `r<sub>.<backend>=1` (`SetRestart(true)`, as the health checker does)
                `t<sub>.<backend>=<seconds>` (clock hook: the backend's slow start began that many seconds ago)
   result = per `q`: `ok:<SubclusterName>:<AddrInfo with : -> _>:<RetryTime after>` | `err:<code>:<SubclusterName|?>:<RetryTime after>`
+  op = `bt <wrr|wlc> <sticky> <retryMax> <crossRetry> <script>`: the same through the REAL path: configuration files
+       (gslb.data, cluster_table.data) -> GslbConfLoad / ClusterTableLoad -> BalTable.Init / BalTableReload -> Lookup -> Balance
+       `L<version>~<cluster>!<sub>=<gslb weight>=<addr>/<configured weight>+...;...&<cluster>!...` (token `Lok` | `Lrej`)
+       `q<cluster>:<RetryTime>:<ip hex>`   `a<cluster>|<sub>|<addrinfo>=<0|1>`   `c<cluster>|<sub>|<addrinfo>=<n>`
   The `rand` of randomSelectExclude is read back from the implementation's answer: the model repeats the
   implementation's cross sub-cluster iff it is one of those `randomSelectExclude` may return.
 -/
@@ -236,7 +240,119 @@ def runSteps (subsOp : List SubSt) : St → List String → List String → St
       | [] => runSteps subsOp (step subsOp st s "") rest []
     else runSteps subsOp (step subsOp st s "") rest toks
 
+/-! ### `bt`: the real path — configuration FILES -> loaders -> BalTable.Init / BalTableReload -> Lookup -> Balance -/
+
+structure CConf where
+  name : String
+  subs : List (String × Int × BConf)     -- sub-cluster name, gslb weight, backends (AddrInfo, configured weight)
+
+def parseBConf (s : String) : Option BConf :=
+  if s == "-" then some [] else
+  (s.splitOn "+").mapM fun (t : String) => match t.splitOn "/" with
+    | [a, w] => (String.toInt? w).map fun w => (a, w)
+    | _ => none
+
+def parseCConf (s : String) : Option CConf :=
+  match s.splitOn "!" with
+  | [n, ss] =>
+    ((ss.splitOn ";").mapM fun (t : String) => match t.splitOn "=" with
+      | [sn, w, b] => match String.toInt? w, parseBConf b with
+        | some w, some b => some (sn, w, b)
+        | _, _ => none
+      | _ => none).map fun subs => { name := n, subs := subs }
+  | _ => none
+
+/-- what the loaders accept: every cluster has a positive total gslb weight (GslbClusterConf.Check) and every
+    sub-cluster lists a backend with weight > 0 (SubClusterBackend.Check) -/
+def validConf (cs : List CConf) : Bool :=
+  cs.all fun c => (c.subs.any fun s => decide (0 < s.2.1)) && c.subs.all fun s => s.2.2.any fun b => decide (0 < b.2)
+
+structure BtSt where
+  tab : List (String × Cl × Cl) := []     -- cluster name, model state, specification state
+  loaded : Bool := false
+  out : List String := []
+  verdict : Option String := none
+  tags : List String := []
+  bad : Bool := false
+  initErr : Bool := false
+
+def emptyCl (rmax cross : Int) (algo : Algo) : Cl :=
+  { subs := [], g := { subs := [], total := 0, single := false, avail := 0 }, retryMax := rmax, crossRetry := cross, algo := algo }
+
+/-- specification state after an accepted load: exactly the configuration; a backend that existed under the same
+    sub-cluster keeps what the configuration does not speak about (availability, connections) -/
+def specLoad (old : Option Cl) (c : CConf) (rmax cross : Int) (algo : Algo) : Cl :=
+  { emptyCl rmax cross algo with
+    subs := c.subs.map fun s =>
+      let oldBs := ((old.bind fun o => o.subs.find? fun x => x.name == s.1).map (·.bs)).getD []
+      { name := s.1, w := s.2.1, bs := s.2.2.map fun p =>
+          match oldBs.find? fun b => b.addr == p.1 with
+          | some b => { b with w := 100 * p.2 }
+          | none => { addr := p.1, w := 100 * p.2, cur := 100 * p.2, conn := 0, avail := true, final := 100 * p.2 } } }
+
+def btLoad (st : BtSt) (cs : List CConf) (rmax cross : Int) (algo : Algo) : BtSt :=
+  if !validConf cs then
+    (if st.loaded then { st with out := "Lrej" :: st.out, tags := "load-rejected" :: st.tags } else { st with initErr := true })
+  else if !st.loaded then
+    let tab := cs.filterMap fun c =>
+      (mkCluster (c.subs.map fun s => { name := s.1, w := s.2.1, bs := initBs s.2.2 }) rmax cross algo).map fun m =>
+        (c.name, m, specLoad none c rmax cross algo)
+    { st with tab := tab, loaded := true, out := "Lok" :: st.out }
+  else
+    let tab := cs.map fun c =>
+      let old := st.tab.find? fun x => x.1 == c.name
+      let m0 := (old.map (·.2.1)).getD (emptyCl rmax cross algo)
+      let m1 := (reload m0 (c.subs.map fun s => (s.1, s.2.1))).1
+      let m2 := { m1 with subs := m1.subs.map fun s => match c.subs.find? fun x => x.1 == s.name with
+        | some x => { s with bs := updateBs s.bs x.2.2 }
+        | none => s }
+      (c.name, m2, specLoad (old.map (·.2.2)) c rmax cross algo)
+    { st with tab := tab, out := "Lok" :: st.out, tags := "reload" :: st.tags }
+
+def btStep (rmax cross : Int) (algo : Algo) (st : BtSt) (s : String) (tok : String) : BtSt :=
+  if s.startsWith "L" then
+    match ((s.drop 1).toString).splitOn "~" with
+    | [_, cs] => match (cs.splitOn "&").mapM parseCConf with
+      | some cs => btLoad st cs rmax cross algo
+      | none => { st with bad := true }
+    | _ => { st with bad := true }
+  else if s.startsWith "q" then
+    match ((s.drop 1).toString).splitOn ":" with
+    | [cn, r, k] => match r.toInt?, bytesOfHex k with
+      | some r, some key =>
+        match st.tab.find? fun x => x.1 == cn with
+        | none => { st with out := "nocluster" :: st.out,
+                            verdict := if tok != "nocluster" ∧ st.verdict.isNone then some "removed-cluster-still-served" else st.verdict }
+        | some x =>
+          let q := qStep { c := x.2.1, sc := x.2.2 } r key tok
+          { st with tab := st.tab.map fun y => if y.1 == cn then (cn, q.c, q.sc) else y
+                    out := q.out ++ st.out
+                    verdict := if st.verdict.isNone then q.verdict else st.verdict
+                    tags := q.tags ++ st.tags }
+      | _, _ => { st with bad := true }
+    | _ => { st with bad := true }
+  else if s.startsWith "a" || s.startsWith "c" then
+    match ((s.drop 1).toString).splitOn "=" with
+    | [pos, v] => match pos.splitOn "|", v.toInt? with
+      | [cn, sn, ad], some v =>
+        let f : Be → Be := if s.startsWith "a" then (fun x => { x with avail := v == 1 }) else (fun x => { x with conn := v })
+        { st with tab := st.tab.map fun y => if y.1 == cn then (cn, updBe y.2.1 sn ad f, updBe y.2.2 sn ad f) else y }
+      | _, _ => { st with bad := true }
+    | _ => { st with bad := true }
+  else { st with bad := true }
+
+def btRun (rmax cross : Int) (algo : Algo) : BtSt → List String → List String → BtSt
+  | st, [], _ => st
+  | st, s :: rest, toks =>
+    if st.initErr then st else
+    if s.startsWith "q" || s.startsWith "L" then
+      match toks with
+      | t :: ts => btRun rmax cross algo (btStep rmax cross algo st s t) rest ts
+      | [] => btRun rmax cross algo (btStep rmax cross algo st s "") rest []
+    else btRun rmax cross algo (btStep rmax cross algo st s "") rest toks
+
 def run (op impl : String) : Ans :=
+  if impl == "bad-op" then { model := "bad-op", verdict := "skip" } else
   match op.splitOn " " with
   | ["gb", mode, stk, rmax, cross, subsS, stepsS] =>
     match rmax.toInt?, cross.toInt?, (subsS.splitOn ";").mapM parseSub with
@@ -253,6 +369,20 @@ def run (op impl : String) : Ans :=
             | none => "ok"
           tags := [if stk == "1" then "sticky" else mode] ++ st.tags }
     | _, _, _ => { model := "bad-op", verdict := "skip" }
+  | ["bt", mode, stk, rmax, cross, script] =>
+    match rmax.toInt?, cross.toInt? with
+    | some rmax, some cross =>
+      let algo := if stk == "1" then Algo.sticky else if mode == "wlc" then Algo.wlc else Algo.smooth
+      let st := btRun rmax cross algo {} (script.splitOn ",") (impl.splitOn ",")
+      if st.bad then { model := "bad-op", verdict := "skip" }
+      else if st.initErr then { model := "init-err", verdict := if impl == "init-err" then "ok" else "FAIL:init", tags := ["bt", "init-err"] }
+      else
+        { model := ",".intercalate st.out.reverse
+          verdict := match st.verdict with
+            | some cls => "FAIL:" ++ cls
+            | none => "ok"
+          tags := (["bt", if stk == "1" then "sticky" else mode] ++ st.tags).eraseDups }
+    | _, _ => { model := "bad-op", verdict := "skip" }
   | _ => { model := "bad-op", verdict := "skip" }
 
 end BfeVerif.C03
